@@ -21,6 +21,9 @@ def run_case(s, ro_txt, kind, kw, mid=2, pretty=False, ctx=None, noise_rng=None)
 
 HOSTILE_NAMES = ['NEWS,AM,S1', '5" x 7\' card', 'S1', 's1', 'S1 ', 'S10', ' S1', 'S01', 'B"][itemID=\'B\'][itemID="B',
                  '{6B29FC40-CA47}']
+# a second ordering of hostile names for the quick grids (which only use the first few): IDs that differ
+# in surrounding white space, case and zero padding only
+HOSTILE_NAMES_B = ['S1', 'S1 ', ' S1', 'S01', 's1', 'S10']
 HOSTILE_UNKNOWN = 'SPORT,AM,S1'       # not in any running order, but its last component is
 # IDs longer than the protocol's nominal 128 characters that differ only after that length
 _LONG = 'OPENMEDIA/2020-01-01/' + 'x' * 107
